@@ -348,28 +348,38 @@ def h_homogeneity(h, which):
                 h.claim(f'{cid}/dropped-by-the-documented-slope-filter(no claim)', True)
 
 
-def h_bet_auto_window_scale(h, k):
-    """the automatically chosen BET window does not depend on the scale of the loadings"""
+def h_bet_auto_window_scale(h, k, cval=None):
+    """the automatically chosen BET window does not depend on the scale of the loadings (symbolic scale factor, or a concrete
+    change of unit such as mol -> umol, which keeps the queries quadratic)"""
     import pygaps.characterisation.area_bet as ab
     from scipy import stats
     from pygaps.utilities.exceptions import CalculationError
-    c = h.real('c_scale', pos=True)
+    c = h.real('c_scale', pos=True) if cval is None else cval
     ps = isofix.increasing(h, [f'p{i}' for i in range(k)])
     h.assume(ps[-1] < 1)
     ns = [h.real(f'n{i}', pos=True) for i in range(k)]
     sigma = h.real('sigma', pos=True)
 
+    class _WindowKnown(BaseException):
+        """raised by the regression stub: the window is the slice that reaches the regression; what follows (parameter
+        plausibility warnings) multiplies paths without touching the window"""
+
     def run(scale):
-        lr = LinregressStub(h, exact=False, name=f'lr{"s" if scale else "u"}')
+        def lr(x, y=None, **kw):
+            xs = list(numpy.asarray(x, dtype=object).ravel())
+            idx = [[i for i, p in enumerate(ps) if (v is p) or (not h.sym and v == p)][0] for v in xs]
+            raise _WindowKnown(idx)
         with stubs.patched((stats, 'linregress', lr)):
             try:
-                r = ab.area_BET_raw(isofix.column(h, ps), isofix.column(h, [n * c for n in ns] if scale else ns), sigma, None)
-                return (int(r[6]), int(r[7]))
+                ab.area_BET_raw(isofix.column(h, ps), isofix.column(h, [n * c for n in ns] if scale else ns), sigma, None)
+                return 'no-regression'
             except CalculationError:
                 return 'refused'
+            except _WindowKnown as w:
+                return tuple(w.args[0])
     a = run(False)
     b = run(True)
-    h.claim(f'C15/homogeneity/BET-auto-window/k={k}/same-window-for-scaled-loadings', a == b, info=f'{a} vs {b}')
+    h.claim(f'C15/homogeneity/BET-auto-window/k={k}{"" if cval is None else "/scale=" + str(cval)}/same-window-for-scaled-loadings', a == b, info=f'{a} vs {b}')
 
 
 def h_meso_homogeneity(h, method):
@@ -402,8 +412,12 @@ def obligations(tier):
         obs.append(Obligation(f'C15/isosteric/chunk{ci}', h_isosteric, (ch,), bounds=f'k=3; {len(ch)} representations', **kw))
     for wch in ('BET', 'Langmuir', 't-plot'):
         obs.append(Obligation(f'C15/homogeneity/{wch}', h_homogeneity, (wch,), bounds='k=3; symbolic scale factor', **kw))
-    for k in ((3,) if tier == 'quick' else (3, 4, 5)):
+    for k in ((3, 4) if tier == 'quick' else (3, 4, 5, 6)):
         obs.append(Obligation(f'C15/homogeneity/BET-auto-window/k={k}', h_bet_auto_window_scale, (k,), bounds=f'k={k}; symbolic scale factor', **kw))
+        from fractions import Fraction
+        for cv in (Fraction(1, 10**6), Fraction(10**6)):
+            obs.append(Obligation(f'C15/homogeneity/BET-auto-window/k={k}/scale={cv}', h_bet_auto_window_scale, (k, cv),
+                                  bounds=f'k={k}; loadings rescaled by {cv} (a change of unit)', **kw))
     for m in ('pygaps-DH', 'BJH', 'DH'):
         obs.append(Obligation(f'C15/homogeneity/{m}', h_meso_homogeneity, (m,), bounds='k=3; symbolic scale factor', **kw))
     return obs
